@@ -136,6 +136,20 @@ func specNoCall(e Expression) bool {
 	return false
 }
 
+// specUnusedValueKind: statement kinds that only compute a value (literals, variable reads,
+// operations, subscripts, itoa, groups, slice literals); standing alone they would be evaluated but
+// not used -- and a block made of nothing else would be translated into no code at all.
+func specUnusedValueKind(t StatementType) bool {
+	switch t {
+	case STATEMENT_TYPE_BOOL_LITERAL, STATEMENT_TYPE_INT_LITERAL, STATEMENT_TYPE_STRING_LITERAL, STATEMENT_TYPE_NIL_LITERAL,
+		STATEMENT_TYPE_STRING_SUBSCRIPT, STATEMENT_TYPE_UNARY_OPERATION, STATEMENT_TYPE_BINARY_OPERATION, STATEMENT_TYPE_LOGICAL_OPERATION,
+		STATEMENT_TYPE_COMPARISON, STATEMENT_TYPE_VAR_EVALUATION, STATEMENT_TYPE_GROUP, STATEMENT_TYPE_ITOA,
+		STATEMENT_TYPE_SLICE_INSTANTIATION, STATEMENT_TYPE_SLICE_EVALUATION:
+		return true
+	}
+	return false
+}
+
 // specReservedName: identifiers the back ends own (temporaries _h<n>, registers _rv<n> _fa<n>,
 // loop flags _fv<n>, dynamic arrays _dv<n> _dvc, helper routines and their scratch variables).
 func specReservedName(name string) bool {
@@ -399,6 +413,7 @@ func specInScope(stack []scope, n int, s scope) bool {
 //@   ensures[C07,C09] upper-case-first-letter-only: len(name) > 0 && name[0] < 128 ==> result == (name[0] >= 65 && name[0] <= 90)
 
 //@ func (*Parser).evaluateStatement
+//@   ensures[C06,C16] a-value-cannot-stand-alone-as-a-statement: err == nil && calls(evaluateExpression) == 1 ==> result0 != nil && !specUnusedValueKind(result0.StatementType())
 //@   callsite findVariable requires[C07,C09] a-name-is-looked-up-under-this-files-prefix-and-the-current-scope: arg2 == p.prefix && arg3 == ctx.global()
 //
 // The type of a call as a value: the function's only result type; a call of a function with
